@@ -603,6 +603,41 @@ def exchange_case(r, cid, pair, pol):
     return lines
 
 
+def binarg_case(r, cid, pair, pol):
+    """binary operators with an ARGUMENT in a special, not yet reduced state: one component inconsistent by itself
+    (the other non-empty and overlapping the receiver), or both fine but jointly empty; the receiver is feasible.
+    The argument denotes the empty set, so difference / upper bound must keep every point of the receiver."""
+    kinds = KINDS[pair]
+    dim = r.choice([1, 2, 2, 3])
+    p0 = [r.randint(-2, 2) for _ in range(dim)]
+    lines = ["case %s %s %s" % (cid, pair, pol), "new 0 %d universe" % dim]
+    lines.append("set 0 1 %s" % feas_comp(r, dim, kinds[0], p0))
+    lines.append("set 0 2 %s" % feas_comp(r, dim, kinds[1], p0))
+    lines.append("new 1 %d universe" % dim)
+    which = r.choice([1, 2]); other = 3 - which
+
+    def inconsistent(k):
+        if k == "G" and r.random() < 0.7:
+            a = [0] * dim; a[r.randrange(dim)] = 1
+            return cons_list([]) + " " + cgs_list([cg(2, 0, a), cg(2, 1, a)])
+        return cons_list([con(">=", -1, [0] * dim)]) + " " + cgs_list([])
+    if r.random() < 0.75:
+        lines.append("set 1 %d %s" % (which, inconsistent(kinds[which - 1])))
+        lines.append("set 1 %d %s" % (other, feas_comp(r, dim, kinds[other - 1], p0)))
+    else:
+        p1 = [x + r.choice([4, -5, 7]) for x in p0]
+        lines.append("set 1 1 %s" % feas_comp(r, dim, kinds[0], p0))
+        lines.append("set 1 2 %s" % feas_comp(r, dim, kinds[1], p1))
+    if r.random() < 0.15:
+        lines.append("red 1")
+    op = r.choice(["difference_assign"] * 4 + ["upper_bound_assign", "intersection_assign", "time_elapse_assign", "assign"])
+    lines.append("op 0 %s 1" % op)
+    lines.append("qry 0 is_empty")
+    lines.append(rand_query(r, 0, 1, dim, kinds))
+    lines.append("end")
+    return lines
+
+
 def make_cases(seed, n_shrink, n_reduce, n_ops, steps=5, start=0, n_period=None):
     r = random.Random(seed)
     out = []
@@ -636,6 +671,10 @@ def make_cases(seed, n_shrink, n_reduce, n_ops, steps=5, start=0, n_period=None)
     cons_pairs = ["CN", "NN", "BC", "SC", "CN", "NN"]
     for i in range(n_reduce // 2):
         out += exchange_case(r, "x%d" % cid, cons_pairs[i % len(cons_pairs)], r.choice(["K", "K", "P"])); cid += 1
+    # binary operators with an argument in a special unreduced state: own random stream
+    rb = random.Random(seed * 17 + 9)
+    for i in range(n_reduce):
+        out += binarg_case(rb, "b%d" % cid, PAIRS[i % len(PAIRS)], POLICIES[(i // len(PAIRS) + i) % len(POLICIES)]); cid += 1
     return out
 
 
